@@ -2,4 +2,4 @@ From C02 Require Import Model.
 From Base Require Import CInt.
 Require Extraction.
 Require Import ExtrOcamlBasic.
-Extraction "model.ml" fold_bin fold_un baked conv_accepts lit_ctype rt_bin rt_un rt_type exact_bin wrap mkity.
+Extraction "model.ml" fold_bin fold_un baked conv_accepts lit_ctype rt_bin rt_un rt_nested_l rt_stored_l rt_type exact_bin wrap mkity.
